@@ -47,7 +47,7 @@
 (* fresh object inside every fence of its key, so that it produces for a    *)
 (* fence f exactly Kinds[f] (one message per detect code, ascending).       *)
 (***************************************************************************)
-EXTENDS Integers, Sequences, FiniteSets, TLC
+EXTENDS NotifyJudge, TLC
 
 CONSTANTS
   HookKey,    \* HookKey[h]   : key watched by webhook h
@@ -543,12 +543,13 @@ WriterStep(s) == STake(s) \/ SWrite(s)
 EnvNext    == \/ \E e \in Eps : Flip(e)
               \/ \E h \in Hooks : Poke(h) \/ Replace(h)
               \/ Tick
-Next == \/ \E c \in Conns : ClientStep(c)
-        \/ \E h \in Hooks, n \in Incs : SenderStep(h, n)
-        \/ EnvNext \/ Expire
-        \/ \E s \in Subs : SubStep(s) \/ WriterStep(s)
-        \/ \E l \in Lives : LReg(l) \/ LRecv(l) \/ LEval(l)
-        \/ LDist
+SysNext == \/ \E c \in Conns : ClientStep(c)
+           \/ \E h \in Hooks, n \in Incs : SenderStep(h, n)
+           \/ Expire
+           \/ \E s \in Subs : SubStep(s) \/ WriterStep(s)
+           \/ \E l \in Lives : LReg(l) \/ LRecv(l) \/ LEval(l)
+           \/ LDist
+Next == SysNext \/ EnvNext
 
 \* weak fairness of everything the server and the (finite) client programs do, never of the faults
 Fair == /\ \A c \in Conns : WF_vars(ClientStep(c))
@@ -589,20 +590,8 @@ HookGenInWriteOrder == \A h \in Hooks : \A i, j \in 1..Len(hgen[h]) :
                           i < j => (hgen[h][i].w < hgen[h][j].w \/ (hgen[h][i].w = hgen[h][j].w /\ hgen[h][i].d < hgen[h][j].d))
 
 -----------------------------------------------------------------------------
-(* The judgement of one receiver's stream, on relations only the clients    *)
-(* can observe.  The same operators judge the recorded streams of the real  *)
-(* server in NotifyTrace (there the relations are computed from tickets).   *)
-(*   st     : the stream, a sequence of items                               *)
-(*   elig   : the items the receiver may get at all                         *)
-(*   must   : the items the receiver has to get (judged at quiescence)      *)
-(*   Before(a, b) : item a has to precede item b when both are there        *)
-StreamSafe(st, elig, Before(_, _)) ==
-  /\ \A i \in 1..Len(st) : st[i] \in elig
-  /\ \A i, j \in 1..Len(st) : i < j => (st[i] # st[j] /\ ~Before(st[j], st[i]))
-StreamComplete(st, must) == must \subseteq Range(st)
-
-\* two messages of writes: log order, then the sortMsgs order within one write
-GeoBefore(a, b) == a.w > 0 /\ b.w > 0 /\ (a.w < b.w \/ (a.w = b.w /\ (a.d < b.d \/ (a.d = b.d /\ a.ch < b.ch))))
+(* Subscribers and live fences: the judgement of NotifyJudge, with the      *)
+(* precedence relations taken from the state.                               *)
 \* same connection: program order; different connections: a was completed before b was sent
 OpBefore(a, b)  == (a.c = b.c /\ a.i < b.i) \/ (<<b.c, b.i>> \in DOMAIN at /\ <<a.c, a.i>> \in at[<<b.c, b.i>>].done)
 SubBefore(a, b) == GeoBefore(a, b) \/ OpBefore(a, b)
